@@ -12,6 +12,8 @@ TRUST = ("Trusted base: the AST instrumenter and simrt scheduler (syntactic rewr
          "Sampling, not enumeration: a clean batch is evidence, not proof. Standard library, codec and generated code are atomic to the scheduler.")
 
 CLAIMED = {
+    "C13": ("5/C13", "Seeded search over interleavings (statement granularity) of 1-3 selecting and 1-2 updating goroutines on the real selectors (round-robin, random, mod-hash, consistent-hash; weighted and not) over weight vectors including zero and negative weights; "
+            "the recorded invoke/return history is checked with porcupine against the model 'Select returns a member of the current set, or an error only if no endpoint is eligible', any panic is a violation; a sequential phase checks strict rotation by host and the exact composition of one weighted cycle, max(1, floor(W_i*R/W_max)), on a set reached through a drawn history."),
     "C11": ("5/C11", "Seeded search over the points at which a scripted server (which answers every request it reads) closes connections - after any response, when idle, after a reconnect notification, by crash+restart - x gaps between close and next call (0ms-2.5s, straddling the sender's 1s poll) x interleavings of callers, sender and receiver goroutines of the real client; "
             "oracles: a call issued after the client observed the close (its Read returned EOF) succeeds in far less than its time-out, no request is written to a connection the client closed at an earlier instant, no new dial while the latest connection is healthy."),
     "C12": ("5/C12", "Seeded search over the instant of Shutdown relative to in-flight, queued and still-arriving requests x handler durations x pool sizes (0 and N, checked separately) x queue capacities x context time-outs x interleavings of accept loop, receive loops, handlers, pool dispatcher and the shutdown poller, with the real TarsServer/tcpHandler/gpool and scripted raw clients; "
